@@ -15,21 +15,28 @@ TRUSTED = [
     "which processor the run sites hand to run_pipeline, absence of other custom copy hooks; for the copy sites and the "
     "two observation run sites whether anything derived from the caller's processor is written to (taint analysis over "
     "attribute/item stores, del, setattr, mutating method calls, run_pipeline on the caller's object) and whether every "
-    "value handed to .set is deep-copied by the site; fails closed)",
+    "value handed to .set is deep-copied by the site; which pipeline_seed reaches run_pipeline from every run site "
+    "(observation loop, the dask chain down to apply_ufunc's kwargs, fitness, _apply_parameters <- Calibration) and whether a "
+    "`with set_random_seed` surrounds the loop over the runs -> src_seeding; what ModelGroup.__getstate__ / __setstate__ hand "
+    "over and restore -> src_pickle_policy; fails closed)",
     "correspondence harness: harness/props/c06.py generators, harness/drivers/c06.py (canonical numbering of real "
     "object graphs, value snapshots, standalone oracle built from the JSON spec without Processor.set)",
     "modelled, not verified: CPython copy.deepcopy of plain objects = relocation of the reachable sub-graph (checked "
     "on every generated graph: Coq compares the block it computes with the block CPython produced); user model "
     "functions change only what they reach from the processor they are given and do not depend on addresses "
-    "(Section hypotheses run_frame / run_local); module-level state (global RNG, lru_cache, probe TRACE) is outside "
-    "the store (C04/C20)",
+    "(Section hypotheses run_frame / run_local); numpy's global generator is modelled as a value threaded through the runs "
+    "(Model/HeapRng.v: `with set_random_seed` = start from seed_gen(seed), put the previous state back; that "
+    "exposure.run_pipeline brackets its whole body with the seed it is given is not translated - it is the same function on "
+    "both sides of every comparison, the standalone exposure included; threads sharing the generator: open finding of C07); "
+    "other module-level state (lru_cache, probe TRACE, generators other than numpy's global one) is outside the store "
+    "(C04/C20)",
 ]
 
 CLS = {"Processor": "CProcessor", "Group": "CGroup", "Model": "CModel", "Args": "CArgs", "Pipeline": "CPipeline",
        "Detector": "CDetector", "Observation": "CObservation", "Readout": "CReadout", "List": "CList",
        "Dict": "CDict", "Array": "CArray", "Leaf": "CLeaf", "Obj": "CObj"}
 
-SITE_ROW = {"deepcopy": None, "replace": "Processor.replace", "create_new_processor": "create_new_processor",
+SITE_ROW = {"deepcopy": None, "pickle": None, "replace": "Processor.replace", "create_new_processor": "create_new_processor",
             "update_processor": "update_processor", "build_processors": "build_processors",
             "fitting_init": "ModelFittingDataTree.__init__"}
 
@@ -109,7 +116,7 @@ def gen_observe(r, k):
         ncalls = max(ncalls, 2)
     fail_call = r.randrange(0, ncalls - 1) if has_fail else -1   # a failing run in the middle, good calls after it
     for c in range(ncalls):
-        mode = r.choice(["product", "product", "sequential"])
+        mode = r.choice(["product", "product", "sequential", "product", "sequential", "custom"])
         with_fail = c == fail_call
         dask = r.random() < 0.35 and not with_fail
         nk = 1 if (mode == "sequential" and dask) else r.choice([1, 2, 2])   # F12 (C05/C07): dask zips sequential sweeps
@@ -142,6 +149,11 @@ def gen_observe(r, k):
                 params.append(dict(key=key, values=values_for(r, key, r.choice([2, 3]), with_fail=with_fail)))
         if not with_fail and not reject and not single and r.random() < 0.06:
             params.append(dict(key=K + "nomodel.arguments.x", values=[1.0, 2.0]))      # unknown key: refused up front
+        if mode == "custom":
+            # the rows of the file are the runs: one value per parameter and row
+            n = min(len(q["values"]) for q in params)
+            for q in params:
+                q["values"] = q["values"][:n]
         calls.append(dict(parameters=params, mode=mode, with_dask=dask, reject=reject,
                           scheduler=r.choice(["synchronous", "threads"]) if dask else None))
     # run orders / subsets: repeat the first call with its values reversed or thinned
@@ -237,18 +249,19 @@ def gen_sitefail(r, k):
 
 
 def gen_graph(r, k):
-    sites = ["deepcopy", "replace", "create_new_processor", "update_processor", "build_processors", "fitting_init"]
+    sites = ["deepcopy", "replace", "create_new_processor", "update_processor", "build_processors", "fitting_init",
+             "pickle"]
     site = sites[k % len(sites)]
     pname, spec, keys, lkey, has_fail = gen_spec(r)
     if site in ("update_processor", "fitting_init"):
         spec["readout"] = dict(times=[1.0], non_destructive=False)
     if r.random() < 0.2:
         spec["det"]["kind"] = r.choice(["apd", "mkid"])
-    nk = r.choice([0, 1, 2]) if site in ("deepcopy", "fitting_init") else r.choice([1, 2])
+    nk = r.choice([0, 1, 2]) if site in ("deepcopy", "fitting_init", "pickle") else r.choice([1, 2])
     params = {key: r.choice(DYADIC) for key in r.sample(keys, min(nk, len(keys)))}
     if lkey and site in ("replace", "create_new_processor", "build_processors") and r.random() < 0.5:
         params[lkey] = [7, 8, 9]
-    with_obs = site in ("replace", "create_new_processor", "deepcopy") and r.random() < 0.6
+    with_obs = site in ("replace", "create_new_processor", "deepcopy", "pickle") and r.random() < 0.6
     # a list-valued parameter replaces a list of the same length (same graph shape): no run before it,
     # because mutates_args would have grown the caller's list
     pre_run = r.random() < 0.5 and not (lkey and lkey in params)
@@ -332,6 +345,162 @@ def gen_fitness_multi(r, k):
     vecs.append(list(vecs[0]))
     return dict(kind="fitness", pipe="ma_st", spec=spec, variables=variables, input_arguments=inputs, vectors=vecs,
                 target=r.choice([0.0, 2.5]), input_class=cls)
+
+
+# ---- seeded stochastic pipelines: every run starts from the generator state seed_gen(pipeline_seed)
+
+PC = "pipeline.photon_collection."
+
+
+def seeded_pipelines():
+    """name -> (pipeline spec, sweepable keys with their value pools).  Every pipeline contains a STOCHASTIC model that has
+    no seed of its own (it draws from numpy's global generator, which `pipeline_seed` seeds): the probe `draws` (the number
+    of draws is itself a swept parameter: runs leave the stream at different positions) or pyxel's own shot_noise."""
+    a2p = dict(func="verif_probes.args_to_pixel", name="a2p", arguments=dict(a=1.0, b=2.0))
+    st = dict(func="verif_probes.stateful", name="st", arguments=dict(inc=1.0))
+    dr = dict(func="verif_probes_c06.draws", name="dr", arguments=dict(n=2, hi=4096))
+    mem = dict(func="verif_probes_c06.memory", name="mem", arguments=dict(key="trap", inc=1.0))
+    wr = dict(func="verif_probes.write", name="wr", arguments=dict(bucket="photon", value=64.0))
+    sn = dict(func="pyxel.models.photon_collection.shot_noise", name="shot_noise", arguments=dict(type="poisson"))
+    p2p = dict(func="verif_probes_c06.photon_to_pixel", name="p2p", arguments={})
+    nvals = [1, 2, 3, 5]
+    return {
+        "draw_st": ({G: [a2p, dr, st]}, {K + "a2p.arguments.a": DYADIC, K + "dr.arguments.n": nvals,
+                                         K + "st.arguments.inc": DYADIC}),
+        "draw_mem": ({G: [dr, mem]}, {K + "mem.arguments.inc": DYADIC, K + "dr.arguments.n": nvals}),
+        "shot": ({"photon_collection": [wr, sn], G: [p2p, st]},
+                 {PC + "wr.arguments.value": [16.0, 64.0, 100.0, 256.0, 1000.0], K + "st.arguments.inc": DYADIC}),
+        "shot_draw": ({"photon_collection": [wr, sn], G: [p2p, dr]},
+                      {PC + "wr.arguments.value": [16.0, 64.0, 100.0, 256.0], K + "dr.arguments.n": nvals}),
+    }
+
+
+def gen_seeded_spec(r, pname):
+    pipe, pools = seeded_pipelines()[pname]
+    spec = dict(det=dict(kind=r.choice(["ccd", "cmos"]), rows=r.choice([1, 2]), cols=r.choice([2, 3])),
+                pipeline=copy.deepcopy(pipe),
+                readout=dict(times=r.choice([[1.0], [1.0, 2.0]]), non_destructive=r.random() < 0.3),
+                memory=r.choice([None, 3.0]), pre_exposure=r.choice([0, 1, 2]), pre_seed=r.randrange(1, 500))
+    if "mem" in pname or r.random() < 0.4:
+        spec["real_memory"] = r.choice([{"trap": 4.0}, {"trap": 0.5}])
+    return spec, pools
+
+
+def gen_observe_seeded(r, k):
+    """An observation with a pipeline_seed and a stochastic model that has no seed of its own: every run - whatever its
+    position, whatever the other runs and their order - must equal the standalone exposure with that pipeline_seed.
+    All three modes, the loop and dask with the synchronous scheduler (threads: open finding of C07).  The calls of one
+    case sweep the same values in the given order, reversed, and thinned (run k of one call is run 0 of another)."""
+    names = sorted(seeded_pipelines())
+    pname = names[k % len(names)]
+    spec, pools = gen_seeded_spec(r, pname)
+    mode = ["product", "sequential", "custom"][(k // len(names)) % 3]
+    dask = r.random() < 0.5
+    keys = sorted(pools)
+    nk = r.choice([1, 2])
+    ks = r.sample(keys, min(nk, len(keys)))
+    if mode == "custom":
+        n = r.choice([3, 4])
+        params = [dict(key=key, values=[r.choice(pools[key]) for _ in range(n)]) for key in ks]
+    else:
+        params = [dict(key=key, values=r.sample(pools[key], r.choice([2, 3]))) for key in ks]
+    seed = r.randrange(0, 100000)
+    base = dict(parameters=params, mode=mode, with_dask=dask, scheduler="synchronous" if dask else None,
+                pipeline_seed=seed, ambient=r.randrange(1, 100000))
+    calls = [base]
+    rev = copy.deepcopy(base)
+    for q in rev["parameters"]:
+        q["values"] = list(reversed(q["values"]))
+    rev["ambient"] = r.randrange(1, 100000)
+    rev["with_dask"] = not dask                    # every case takes both paths: the loop and dask (synchronous)
+    rev["scheduler"] = "synchronous" if rev["with_dask"] else None
+    calls.append(rev)
+    thin = copy.deepcopy(base)
+    if mode == "custom":
+        cut = r.choice([1, 2])
+        for q in thin["parameters"]:
+            q["values"] = q["values"][cut:]
+    else:
+        for q in thin["parameters"]:
+            q["values"] = q["values"][r.choice([1, len(q["values"]) - 1]):]
+    thin["ambient"] = r.randrange(1, 100000)
+    if r.random() < 0.5:
+        thin["pipeline_seed"] = r.randrange(0, 100000)      # another seed on the same caller objects
+    calls.append(thin)
+    if r.random() < 0.6:
+        # the very same Observation object is run once more (same parameters, another ambient generator state)
+        again = copy.deepcopy(calls[-1])
+        again["ambient"] = r.randrange(1, 100000)
+        again["same_mode_object"] = True
+        calls.append(again)
+    return dict(kind="observe", pipe=pname, spec=spec, calls=calls, input_class="seeded_stochastic")
+
+
+def gen_observe_processes(r, k):
+    """The dask path with the multi-PROCESS scheduler: every run receives its processor through pickle (the custom
+    __getstate__ / __setstate__ of ModelGroup, the default protocol for everything else) before Processor.replace copies it.
+    Caller objects with a history; deterministic pipelines (and, every other case, a seeded stochastic one: each worker
+    process has its own generator and every run is seeded); followed by a loop call on the same caller objects."""
+    if k % 2 == 0:
+        pname, spec, keys, lkey, has_fail = gen_spec(r, ["mem_mut", "two_groups", "mut_st", "st_mut", "a2p_st"][(k // 2) % 5])
+        pools = {key: DYADIC for key in keys}
+        seed = None
+    else:
+        pname = sorted(seeded_pipelines())[(k // 2) % 4]
+        spec, pools = gen_seeded_spec(r, pname)
+        keys = sorted(pools)
+        seed = r.randrange(0, 100000)
+    mode = ["product", "sequential", "custom"][k % 3]
+    ks = r.sample(keys, min(r.choice([1, 2]), len(keys)))
+    if mode == "custom":
+        params = [dict(key=key, values=[r.choice(pools[key]) for _ in range(3)]) for key in ks]
+    else:
+        params = [dict(key=key, values=r.sample(pools[key], 2)) for key in ks]
+    first = dict(parameters=params, mode=mode, with_dask=True, scheduler="processes", pipeline_seed=seed,
+                 ambient=None if seed is None else r.randrange(1, 100000))
+    second = copy.deepcopy(first)
+    second.update(with_dask=False, scheduler=None)
+    for q in second["parameters"]:
+        q["values"] = list(reversed(q["values"]))
+    return dict(kind="observe", pipe=pname, spec=spec, calls=[first, second],
+                input_class="seeded_stochastic" if seed is not None else "plain")
+
+
+def gen_fitness_seeded(r, k):
+    """fitness() of a calibration with a pipeline_seed and a stochastic model: the same candidate gives the same fitness -
+    that of the standalone exposures under that seed - wherever it comes in the sequence; 1-3 processors."""
+    names = ["draw_st", "draw_mem", "shot"]
+    pname = names[k % len(names)]
+    spec, pools = gen_seeded_spec(r, pname)
+    spec["readout"] = dict(times=[1.0], non_destructive=False)
+    keys = [key for key in sorted(pools) if not key.endswith("dr.arguments.n")]
+    ks = r.sample(keys, min(r.choice([1, 2]), len(keys)))
+    inputs = []
+    rest = [key for key in sorted(pools) if key not in ks]
+    if rest and k % 2 == 1:
+        key = rest[0]
+        inputs = [dict(key=key, values=r.sample(pools[key], r.choice([2, 3])))]
+    nv = r.choice([3, 4])
+    vecs = [[r.choice(pools[key]) for key in ks] for _ in range(nv)]
+    vecs.append(list(vecs[0]))
+    vecs += [list(v) for v in reversed(vecs[:2])]
+    return dict(kind="fitness", pipe=pname, spec=spec, variables=[dict(key=key, lo=0, hi=100000) for key in ks],
+                input_arguments=inputs, vectors=vecs, target=r.choice([0.0, 10.0]), pipeline_seed=r.randrange(0, 100000),
+                input_class="seeded_stochastic")
+
+
+def gen_calibration_seeded(r, k):
+    """A real calibration (one island, synchronous scheduler) with a pipeline_seed and a stochastic model."""
+    pname = ["draw_st", "draw_mem"][k % 2]
+    spec, pools = gen_seeded_spec(r, pname)
+    spec["det"]["kind"] = "ccd"
+    spec["readout"] = dict(times=[1.0], non_destructive=False)
+    keys = [key for key in sorted(pools) if not key.endswith("dr.arguments.n")]
+    ks = r.sample(keys, 1)
+    return dict(kind="calibration", pipe=pname, spec=spec, variables=[dict(key=key, lo=0.5, hi=8.0) for key in ks],
+                input_arguments=[], islands=1, generations=1, pop=7, evolutions=r.choice([1, 2]), num_best=0,
+                pygmo_seed=r.randrange(1, 1000), target=r.choice([0.0, 20.0]), scheduler="synchronous",
+                pipeline_seed=r.randrange(0, 100000), max_judged=12, input_class="seeded_stochastic")
 
 
 # ------------------------------------------------------------------------------------------ Coq emission
@@ -475,7 +644,8 @@ def viol_beh(c, o, clause) -> Violation:
                 case["calls"] = c["calls"][: i + 1]     # shrink: nothing after the first offending call
                 break
         cfg = c["calls"][obs.get("call", 0)]
-        sig = dict(clause=clause, path="dask" if cfg["with_dask"] else "sequential_loop",
+        sig = dict(clause=clause, path=("dask_processes" if cfg.get("scheduler") == "processes" else "dask")
+                   if cfg["with_dask"] else "sequential_loop",
                    input=c.get("input_class", "plain"))
         if c.get("container"):
             sig["container"] = c["container"]
@@ -602,16 +772,19 @@ def correspondence(ctx: Ctx, cases, tag="c"):
                 ctx.count("observation_calls")
                 ctx.dist("call", f"{cfg['mode']}/{('dask-' + (cfg.get('scheduler') or 'synchronous')) if cfg['with_dask'] else 'loop'}"
                                  f"{'/raised' if call['raised'] else ''}"
-                                 f"{'/rejected_value' if cfg.get('reject') else ''}")
+                                 f"{'/rejected_value' if cfg.get('reject') else ''}"
+                                 f"{'/seeded_stochastic' if cfg.get('pipeline_seed') is not None else ''}")
         elif c["kind"] == "calibration":
             ctx.count("evaluations", len(o["evals"]) + len(o["champions"]))
             ctx.count("calibration_candidates_evaluated_by_islands", o.get("n_evals", 0))
             ctx.dist("call", f"calibration/{c['islands']}islands/{o.get('threads', 0) > 1 and 'concurrent' or 'serial'}"
-                             f"{'/raised' if o['raised'] else ''}")
+                             f"{'/raised' if o['raised'] else ''}"
+                             f"{'/seeded_stochastic' if c.get('pipeline_seed') is not None else ''}")
         else:
             ctx.count("evaluations", len(o["evals"]))
             ctx.dist("call", f"fitness/{o.get('processors', 1)}proc" + ("/list_variable" if any(
-                v.get("n") for v in c["variables"]) else ""))
+                v.get("n") for v in c["variables"]) else "")
+                     + ("/seeded_stochastic" if c.get("pipeline_seed") is not None else ""))
             ctx.dist("fitness_raised", sum(1 for e in o["evals"] if e["raised"]))
         ctx.dist("pipeline", c["pipe"])
     return graphs, behs + fails, mism
@@ -628,7 +801,7 @@ def corpus_cases():
     return out
 
 
-def gen_cases(ctx: Ctx, ng, no, nf, salt="cases"):
+def gen_cases(ctx: Ctx, ng, no, nf, salt="cases", ns=None):
     r = ctx.rng(salt)
     cases = corpus_cases() if salt == "cases" else []
     cases += [gen_graph(r, k) for k in range(ng)]
@@ -639,6 +812,13 @@ def gen_cases(ctx: Ctx, ng, no, nf, salt="cases"):
     cases += [gen_fitness(r, k) for k in range(nf)]
     cases += [gen_fitness_multi(r, k) for k in range(max(6, nf // 2))]
     cases += [gen_calibration(r, k) for k in range(max(3, nf // 5))]
+    # seeded stochastic pipelines (own PRNG stream, so that the cases above do not depend on this budget)
+    r2 = ctx.rng(salt + "-seeded")
+    ns = max(12, no // 3) if ns is None else ns
+    cases += [gen_observe_seeded(r2, k) for k in range(ns)]
+    cases += [gen_fitness_seeded(r2, k) for k in range(max(4, ns // 3))]
+    cases += [gen_calibration_seeded(r2, k) for k in range(max(2, ns // 8))]
+    cases += [gen_observe_processes(r2, k) for k in range(max(4, ns // 6))]
     return cases
 
 
@@ -646,7 +826,7 @@ def nontrivial(c) -> bool:
     """Non-trivial: the pipeline contains a model that keeps memory on the detector or mutates its
     own argument AND (graph) the site sets >= 1 parameter or (behaviour) >= 2 runs are made."""
     if c["kind"] == "graph":
-        return bool(c["params"]) or c["site"] in ("deepcopy", "fitting_init")
+        return bool(c["params"]) or c["site"] in ("deepcopy", "fitting_init", "pickle")
     if c["kind"] == "sitefail":
         return True
     if c["kind"] == "observe":
@@ -670,6 +850,10 @@ def run(ctx: Ctx):
         "the buckets, the scene and the readout clock of a copy are not compared with the caller's (exposure.run_pipeline "
         "resets them before the first step of every run); caches (_numbytes), the running model's name and debug data "
         "(_intermediate) are not contents",
+        "seeded stochastic cases: every model that draws random numbers has no seed of its own and draws integers (probe "
+        "`draws`, Poisson shot noise) so that results are exact; the standalone exposure runs under the same pipeline_seed "
+        "and under a different state of the ambient generator; dask only with the synchronous scheduler, real calibrations "
+        "on one island (threads share numpy's generator: finding C07-seeded-threads-share-generator)",
         "calibration candidates are arbitrary binary64 values: fitness / champion frames are compared with the standalone "
         "oracle within 1e-9 relative (oracle side only); everything else uses dyadic inputs and exact comparison",
     ]
@@ -696,7 +880,13 @@ def run(ctx: Ctx):
                        "dask synchronous / dask threads, reversed and thinned value orders, a raising model or a rejected "
                        "value at any position, unknown keys), 4-8 fitness() calls (failing or rejected candidate in the "
                        "middle, candidates repeated in a row and at the end, 1-3 processors per candidate, list-valued "
-                       "variables), real calibrations on 1-3 islands; non-trivial = sets >= 1 parameter (graph) / makes "
+                       "variables), real calibrations on 1-3 islands; seeded stochastic pipelines (a model drawing from numpy's "
+                       "global generator without a seed of its own, shot noise) with a pipeline_seed: product / sequential / "
+                       "custom mode, loop / dask synchronous, the swept values in the given order, reversed, thinned, the same "
+                       "Observation object run twice, fitness sequences with repeated candidates and 1-3 processors, a real "
+                       "one-island calibration - every run against the standalone exposure under that seed; observation calls "
+                       "under the multi-process dask scheduler (the processor reaches every run through pickle) followed by a "
+                       "loop call on the same objects; graph cases also for a pickle round trip; non-trivial = sets >= 1 parameter (graph) / makes "
                        ">= 2 runs (behaviour)")
     ctx.cov["traces_validated_against_impl"] = len(graphs) + len(behs)
     ctx.cov["disagreements_checked"] = len(mism)
@@ -776,26 +966,35 @@ META = dict(
         "history of calls whose runs may be rejected by a setter or raise in a model, aborted at the first failure (loop) "
         "or not (dask), followed by further calls - and the outcome of a run (result or failure) does not depend on that "
         "history; parameter values that are references to the caller's objects keep the frame because the sites "
-        "deep-copy the value (regenerated flag; statement false without the copy); a site that writes to the caller "
+        "deep-copy the value (regenerated flag; statement false without the copy); with the random generator as an explicit "
+        "input and output of every pipeline: because every run site brackets EVERY run with the pipeline seed (regenerated "
+        "table src_seeding), the outcomes of a call are the outcomes of the standalone exposures under that seed, for every "
+        "history, every order / subset of runs and every state of the ambient generator, which is restored - and the "
+        "statement is refuted for one bracket around the whole loop and for a dropped seed; the pickle round trip by which "
+        "a processor reaches the runs under a multi-process scheduler (regenerated policy of ModelGroup's pickle hooks) is a "
+        "fresh isomorphic block as well; a site that writes to the caller "
         "keeps the frame iff it restores in a finally clause (both directions proved on the model); with one aliasing "
         "field or an in-place site the frame statement is refuted on a concrete witness. "
         "That pyxel's real object graphs and CPython's deepcopy behave like the model is established by correspondence "
         "(testing): Coq recomputes the copied block for every generated real processor graph and compares it with what "
-        "deepcopy / replace / create_new_processor / update_processor / build_processors / fitting init produced, and "
+        "deepcopy / pickle / replace / create_new_processor / update_processor / build_processors / fitting init produced, and "
         "judges value snapshots of the caller's objects (which carry a history: detector memory, trapped charge, bucket "
         "contents of earlier exposures) and every observation / dask (synchronous and threaded) / fitness run, every "
         "candidate evaluated by a real multi-island calibration and every copy site asked to apply a rejected value "
-        "against an independently built standalone exposure."),
+        "against an independently built standalone exposure (under the same pipeline seed where there is one; dask synchronous, "
+        "threaded and multi-process)."),
     level_note=(
         "Trusted: Coq kernel + vm_compute; translator/c06.py (field modes, copy-before-set shape, which processor is run, "
-        "writes to the caller's objects by taint analysis, value deep-copied before set, no other copy/pickle hook); "
+        "writes to the caller's objects by taint analysis, value deep-copied before set, where the seed bracket sits, no "
+        "other copy/pickle hook); "
         "the driver's canonical numbering and snapshots; Section hypotheses on runs (frame, address independence, "
-        "Processor.set stores payload or new objects); global state outside the store (RNG, caches) is C04/C20; "
+        "Processor.set stores payload or new objects; outcome = function of the copied graph and of the generator state the "
+        "run starts from); global state other than numpy's generator (caches) is C04/C20; "
         "result equality under parallel schedulers is C07 (here: isolation of the caller and of the runs under the "
         "threaded scheduler). Abstracted: the memo dropped by ModelGroup.__deepcopy__, values of immutable fields, "
         "numpy views (memory sharing is measured by the harness, not modelled). Calibration candidates are arbitrary "
         "binary64 values: their fitness is compared with the standalone oracle within 1e-9 relative (oracle side only)."),
-    technique="Coq proof over a heap/copy-policy model with failing runs + regenerated copy-site tables (mode, effect, "
-              "value copy) + in-Coq graph/snapshot correspondence",
+    technique="Coq proof over a heap/copy-policy model with failing runs and an explicit random-generator state + regenerated "
+              "copy-site / run-site tables (mode, effect, value copy, seeding) + in-Coq graph/snapshot correspondence",
     design_ref="DESIGN.md section 6, C06",
 )
